@@ -87,8 +87,12 @@ StoreIsMap == StoreKeys(O) = map
 Refused == /\ op.raised = "FileExistsError" /\ op.name \in {"addpack", "pack", "import"}
            /\ O0.locks # <<>>
            /\ O.loose = O0.loose /\ O.rows = O0.rows /\ O.packs = O0.packs
+(* a repack that finds the temporary pack of an interrupted repack refuses to start and changes nothing *)
+RepackRefusedOK == /\ O0.tmp /\ O.tmp
+                   /\ O.loose = O0.loose /\ O.rows = O0.rows /\ O.packs = O0.packs
 ResultOK ==
     IF op.raised = "FileExistsError" /\ op.name \in {"addpack", "pack", "import"} THEN Refused ELSE
+    IF op.raised = "AssertionError" /\ op.name = "repack" THEN RepackRefusedOK ELSE
     CASE op.name = "add"     -> op.raised = "" /\ op.res = op.keys
       [] op.name = "readd"   -> op.raised = "" /\ op.res = op.keys
       [] op.name = "addpack" -> op.raised = "" /\ op.res = op.keys
@@ -149,7 +153,7 @@ C09_ImportKnownNotWritten ==
 
 (* ---- C10 ---- *)
 C10_Mode == /\ (IsStep /\ op.name = "pack") => PackModeHonoured(O0, O, op.mode)
-            /\ (IsStep /\ op.name = "repack") => RepackModeHonoured(O0, O, op.mode)
+            /\ (IsStep /\ op.name = "repack" /\ op.raised = "") => RepackModeHonoured(O0, O, op.mode)
 C10_Sizes == /\ \A r \in Rows(O) : r.size = SizeOf(r.k)
              /\ IsStep => \A g \in KeySet(V.metas) :
                    g.type = "packed" => \E r \in Rows(O) : r.k = g.k /\ r.z = g.z /\ r.len = g.len /\ r.size = g.size
